@@ -603,12 +603,13 @@ int main(int argc, char** argv)
       static PlantedGrid pg;
       pg.sizes = {{4, 3}, {5, 8}, {8, 5}, {10, 10}, {16, 12}, {12, 20}, {24, 24}, {40, 25}, {30, 40}, {40, 40}};
       pg.densities = {15, 40, 100};
-      pg.seeds = thorough ? 60 : 8;
+      pg.seeds = thorough ? 60 : 6;
+      pg.magnitudes = 2;
       rep.phase("planted LPs up to 40x40 x dev<=1", pg.size(), [&](uint64_t idx, int pass, Ctx & c) -> uint64_t
       {
          return run_planted(pg.at(idx), cfg1, c, pass == 0);
       }, [&](uint64_t idx, uint64_t sub) { return pg.at(idx).str() + "#" + (sub < cfg1.size() ? g_cs.str(cfg1[sub]) : std::string("default")); }, o, sigsfx(&cfg1));
-      rep.extra["planted_grid"] = jstr("sizes (n x m) 4x3 5x8 8x5 10x10 16x12 12x20 24x24 40x25 30x40 40x40; densities 15/40/100 %; degenerate 0/1; min/max; kinds OPT/INF/UNB; seeds 0.." + std::to_string(pg.seeds - 1));
+      rep.extra["planted_grid"] = jstr("sizes (n x m) 4x3 5x8 8x5 10x10 16x12 12x20 24x24 40x25 30x40 40x40; densities 15/40/100 %; degenerate 0/1; min/max; kinds OPT/INF/UNB; each member also rescaled by powers of two 2^-8..2^8 per row and column; seeds 0.." + std::to_string(pg.seeds - 1));
    }
    {
       // phase N: the 40 shipped MPS instances of the pinned suite x all configurations with <= 1 deviation (the suite itself runs 12 settings and compares one number)
